@@ -11,6 +11,7 @@ def handle (line : String) : String :=
   | "PSTRINGIFY" :: rest => Path.stringifyLine rest
   | "PLE" :: rest => Path.leLine rest
   | "NDIST" :: rest => Dist.ndistLine rest
+  | "HASH" :: rest => Hash.hashLine rest
   | "SAVEFS" :: rest => SaveFS.saveLine Wire.decStr Wire.encStr rest
   | _ => "bad-op"
 
